@@ -173,7 +173,10 @@ def modify_case(draw):
         elif k == "max_workers":
             m["max_workers"] = draw(st.sampled_from([None, 2, 8]))
         elif k == "zmin":
-            m["zmin"] = p["zmin"] * draw(gen.floats(0.3, 0.95))
+            # incl. the boundary value 0.0 (falsy!), which is a valid lower limit
+            m["zmin"] = draw(st.sampled_from([0.0, None, None])) if p["method"] != "comoving" else None
+            if m["zmin"] is None:
+                m["zmin"] = p["zmin"] * draw(gen.floats(0.3, 0.95))
         elif k == "zmax":
             m["zmax"] = p["zmax"] + draw(gen.floats(0.05, 1.0))
         elif k == "num_bins":
@@ -224,8 +227,13 @@ def run_modify(case):
     q = merged_params(p, m)
     if len(q["rmin"]) != len(q["rmax"]):
         return Result.discard("length-mismatch")
-    ok_ref, ref = ck.call(lambda: Configuration.create(**create_kwargs(q)), "create-merged")
-    if not ok_ref:
+    try:
+        ref = Configuration.create(**create_kwargs(q))
+    except Exception:  # noqa
+        # the merged parameters are not a valid configuration (e.g. comoving binning from z=0):
+        # then the modification has to be refused as well
+        ck.cls("merged-invalid")
+        ck.raises(lambda: cfg.modify(**mk), "modify:accepts-what-create-rejects")
         return ck.results()
     tag = "custom-base" if p["edges"] is not None else "auto-base"
     kinds = "+".join(sorted(m))
